@@ -223,7 +223,8 @@ def strategy(tier):
             t = 0.0
             for _ in range(n):
                 arr.append(t)
-                t += draw(st.sampled_from([0, period - 0.125, period, period + 0.125, 0.125]))
+                # also a few milliseconds before / after the instant a slot frees (no "close enough" is allowed)
+                t += draw(st.sampled_from([0, period - 0.125, period, period + 0.125, 0.125, period - 1 / 256, period - 1 / 1024, period + 1 / 256]))
         else:
             arr = [draw(grid(0, 40)) for _ in range(n)]
         calls = []
